@@ -2,6 +2,8 @@ import VrlModel.Wire
 import VrlModel.KindWire
 import VrlModel.KindSpec
 import VrlModel.Arith
+import VrlModel.Lang.Parse
+import VrlModel.Lang.TypeSpec
 
 /-! Oracles of C01 / C02 / C12 on the implementation's own type information (harness/src/typed.rs):
     the Spec predicates (`Spec.memR`, `Spec.mem`) are evaluated on the values the implementation
@@ -32,27 +34,77 @@ def parseSteps : List String → Option (List Step)
     pure (⟨kind, f == "1", const, out, val⟩ :: tl)
   | _ => none
 
-/-- the primary syntactic feature of the source, used only to NAME the finding class of a failure
-    (the failure itself is decided by the Spec predicate): the first that applies, in this order. -/
-def features (src : String) : String :=
-  let has (p : String) : Bool := (src.splitOn p).length > 1
-  if has "map_keys(" then "D_map_keys_type_def"          -- map_keys keeps the input's known fields
-  else if has "-> |" then "D_closure_effects_ignored"    -- effects of closure bodies never reach the caller's type state
-  else if has "del(" then "D_del_typing"                 -- type-level removal (C19 classes, variables not updated)
-  else if has "[-" then "D_negative_index_kind"          -- type-level insert/get at negative indices (C19 classes)
-  else if has "return" then "D_return_skips_effects"     -- final type state assumes the whole program ran
-  else if has "|=" || has " | " then "D_merge_kind"      -- Collection::merge (C19 D_merge_overwrite_maybe_absent)
-  else "-"
+/-! the root expressions of the dump, as token lists (`(prog e1 e2 … )`: an opening token starts with
+    `(`, the closing token is `)`; values and paths contain neither) -/
+
+def splitRootsAux : List String → Nat → List String → List (List String) → List (List String)
+  | [], _, cur, acc => (if cur.isEmpty then acc else cur.reverse :: acc).reverse
+  | t :: ts, depth, cur, acc =>
+    if t.startsWith "(" then splitRootsAux ts (depth + 1) (t :: cur) acc
+    else if t == ")" then
+      if depth == 0 then (if cur.isEmpty then acc else cur.reverse :: acc).reverse   -- end of `(prog`
+      else if depth == 1 then splitRootsAux ts 0 [] ((t :: cur).reverse :: acc)
+      else splitRootsAux ts (depth - 1) (t :: cur) acc
+    else splitRootsAux ts depth (t :: cur) acc
+
+def splitRoots (dump : String) : List (List String) :=
+  match tokens dump with
+  | "(prog" :: rest => splitRootsAux rest 0 [] []
+  | _ => []
+
+/-- `(call <name> <bang> …` occurrences in a root: (name, bang) -/
+def callsOf : List String → List (String × Bool)
+  | "(call" :: n :: b :: rest => (n, b == "1") :: callsOf (n :: b :: rest)
+  | _ :: rest => callsOf rest
+  | [] => []
+
+def rootHasCall (toks : List String) (name : String) : Bool := (callsOf toks).any (·.1 == name)
+def rootHasBang (toks : List String) : Bool := (callsOf toks).any (·.2)
+def rootHasClosure (toks : List String) : Bool := toks.contains "(closure"
+/-- a function call the model of the type inference does not cover (`del` / `exists` on queries are
+    expression forms of the model) -/
+def rootHasAnyCall (toks : List String) : Bool :=
+  (callsOf toks).any fun (n, b) => !((n == "del" || n == "exists") && !b)
+
+/-- NAME of the finding class of an oracle failure observed at root `i` (the failure itself is decided
+    by the Spec predicate), decided from the compiled tree of the roots `0..i` that ran:
+    * no function call among them (inside the model of the type inference): the side condition of the
+      soundness theorem (`Lang.checks`) that fails, the most specific one (`Chk.priority`) when several
+      fail — `-` when none fails, i.e. when the theorem applies and the failure contradicts it
+      (a VIOLATION);
+    * with function calls (outside the model): for a value, `map_keys` in root `i` →
+      `D_map_keys_type_def`; a closure in any of the roots → `D_closure_effects_ignored`; otherwise the
+      failed typing side condition met while typing the tree with calls taken as opaque,
+      `D_call_typing` if none. -/
+def features (dump : String) (T0 : Lang.TState) (i : Nat) (isValue : Bool) : String :=
+  match Lang.Parse.program dump with
+  | none => "-"
+  | some prog =>
+    let roots := (splitRoots dump).take (i + 1)
+    let failed := ((Lang.rootChecks prog T0).take (i + 1)).flatten
+    let pick := if isValue then Lang.pickClass else Lang.pickStateClass
+    if !roots.any rootHasAnyCall then
+      match pick failed with
+      | some c => c.name
+      | none => "-"
+    else if isValue && (match roots.getLast? with | some r => rootHasCall r "map_keys" | none => false) then
+      "D_map_keys_type_def"
+    else if roots.any rootHasClosure then "D_closure_effects_ignored"
+    else
+      match pick (failed.filter fun c => c != Lang.Chk.outOfModel && c != Lang.Chk.structural) with
+      | some c => c.name
+      | none => "D_call_typing"
 
 def srcOfHex (h : String) : String :=
   match bytesOfHex h with
   | some bs => String.fromUTF8! (ByteArray.mk (bs.map (·.toUInt8)).toArray)
   | none => ""
 
-def handle (op : String) (args : List String) : Option String :=
-  match op, args with
-  | _, src :: _event :: _meta :: "|" :: resK :: retK :: tgtK :: metaK :: flags :: outcome :: ev :: md :: _n :: stepFields =>
-    if !(op == "o.c01" || op == "o.c02" || op == "o.c12") then none else do
+def anyObject : Kind := Kind.ofObject Col.any
+
+def judge (op : String) (T0 : Lang.TState) (rest : List String) : Option String :=
+  match rest with
+  | dump :: resK :: retK :: tgtK :: metaK :: flags :: outcome :: ev :: md :: _n :: stepFields => do
     let resK ← KindWire.kindOfString resK
     let retK ← KindWire.kindOfString retK
     let tgtK ← KindWire.kindOfString tgtK
@@ -61,7 +113,17 @@ def handle (op : String) (args : List String) : Option String :=
     let md ← valueOfString md
     let steps ← parseSteps stepFields
     let (out, val) := parseOut outcome
-    let feat := features (srcOfHex src)
+    -- the class is the first failed side condition among the root expressions that ran
+    -- (computed only for failures: the functions below are not called on the `holds` path)
+    let feat (_ : Unit) := features dump T0 (steps.length - 1) true
+    let featAt (i : Nat) := features dump T0 i true
+    -- the final type state assumes the whole program ran: after a `return` nothing is known
+    let featEnd (_ : Unit) :=
+      if out == "ret" then "D_return_skips_effects" else features dump T0 (steps.length - 1) false
+    -- `f!(…)` is typed infallible by design (the error terminates the program): roots with a `!` are
+    -- not judged by the `infallible_expr` clause
+    let roots := splitRoots dump
+    let bangAt (i : Nat) : Bool := match roots[i]? with | some r => rootHasBang r | none => false
     let fl := flags.toList
     let progFallible := fl[0]? == some '1'
     let progAbortable := fl[1]? == some '1'
@@ -70,31 +132,45 @@ def handle (op : String) (args : List String) : Option String :=
     if out == "panic" then pure "holds" else     -- panics belong to C04
     if op == "o.c01" then
       -- every root expression's value belongs to the kind assigned to it
-      match steps.find? (fun st => st.out == "ok" && !(match st.val with | some v => Spec.memR v st.kind | none => true)) with
-      | some _ => pure ("fails step_value:" ++ feat)
+      match steps.findIdx? (fun st => st.out == "ok" && !(match st.val with | some v => Spec.memR v st.kind | none => true)) with
+      | some i => pure ("fails step_value:" ++ featAt i)
       | none =>
-        if out == "ok" && !(match val with | some v => Spec.memR v resK | none => true) then pure ("fails result:" ++ feat)
-        else if out == "ret" && !(match val with | some v => Spec.memR v retK | none => true) then pure ("fails returns:" ++ feat)
-        else if (out == "ok" || out == "ret") && !Spec.mem ev tgtK then pure ("fails event:" ++ feat)
-        else if (out == "ok" || out == "ret") && !Spec.mem md metaK then pure ("fails metadata:" ++ feat)
+        if out == "ok" && !(match val with | some v => Spec.memR v resK | none => true) then pure ("fails result:" ++ feat ())
+        else if out == "ret" && !(match val with | some v => Spec.memR v retK | none => true) then pure ("fails returns:" ++ feat ())
+        else if (out == "ok" || out == "ret") && !Spec.mem ev tgtK then pure ("fails event:" ++ featEnd ())
+        else if (out == "ok" || out == "ret") && !Spec.mem md metaK then pure ("fails metadata:" ++ featEnd ())
         else pure "holds"
     else if op == "o.c02" then
       -- an expression typed infallible never raises an error (NaN excepted); a program without `!`
       -- and `abort` never fails; non-fallible / non-abortable programs never error / abort
-      match steps.find? (fun st => !st.fallible && st.out == "err") with
-      | some _ => pure ("fails infallible_expr:" ++ feat)
+      match (steps.zipIdx.find? (fun (st, i) => !st.fallible && st.out == "err" && !bangAt i)).map (·.2) with
+      | some i => pure ("fails infallible_expr:" ++ featAt i)
       | none =>
-        if !hasBang && !hasAbort && (out == "err" || out == "abort") then pure ("fails program:" ++ feat)
-        else if !progFallible && out == "err" then pure ("fails info_fallible:" ++ feat)
-        else if !progAbortable && out == "abort" then pure ("fails info_abortable:" ++ feat)
+        if !hasBang && !hasAbort && (out == "err" || out == "abort") then pure ("fails program:" ++ feat ())
+        else if !progFallible && out == "err" then pure ("fails info_fallible:" ++ feat ())
+        else if !progAbortable && out == "abort" then pure ("fails info_abortable:" ++ feat ())
         else pure "holds"
     else
-      -- a root expression with a compile-time constant evaluates to that constant
-      match steps.find? (fun st => st.out == "ok" && (match st.const, st.val with
-          | some c, some v => !(Arith.veq c v)
+      -- a root expression with a compile-time constant evaluates to exactly that constant
+      match steps.findIdx? (fun st => st.out == "ok" && (match st.const, st.val with
+          | some c, some v => !(c == v)
           | _, _ => false)) with
-      | some _ => pure ("fails constant:" ++ feat)
+      | some i => pure ("fails constant:" ++ featAt i)
       | none => pure "holds"
+  | _ => none
+
+def handle (op : String) (args : List String) : Option String :=
+  match op, args with
+  | _, _src :: _event :: _meta :: "|" :: rest =>
+    if op == "o.c01" || op == "o.c02" || op == "o.c12" then
+      judge op { target := anyObject, metadata := anyObject } rest
+    else none
+  | _, _src :: tk :: mk :: _event :: _meta :: "|" :: rest =>
+    if op == "o.c01.env" || op == "o.c02.env" || op == "o.c12.env" then do
+      let target ← KindWire.kindOfString tk
+      let metadata ← KindWire.kindOfString mk
+      judge ((op.splitOn ".env").headD op) { target, metadata } rest
+    else none
   | _, _ => none
 
 end Driver.Typed
